@@ -10,8 +10,18 @@ import (
 
 // renderCase builds the message, renders it `renders` times on an unlimited destination and adds the
 // correspondence case. Returns the built pieces for the oracles.
+var renderCaseCounter int
+
 func renderCase(c *Ctx, spc *MsgSpec, renders int, branch string) (outs [][]byte, ok bool) {
 	ok = true
+	// every third message is rendered right after ANOTHER message whose render failed half-way (destination
+	// error inside a body): nothing of that one may show up in this one - not its content (C01), not a
+	// header (C02), not an over-long or unterminated line (C18)
+	renderCaseCounter++
+	if renderCaseCounter%3 == 1 {
+		failedRenderOfADecoy(c.Rng)
+		c.rep.Branches["after-a-failed-render-of-another-message"]++
+	}
 	m, ops, err := spc.Build()
 	if err != nil {
 		c.Note("build failed: %v", err)
@@ -57,12 +67,6 @@ func init() {
 		Run: func(c *Ctx) {
 			n := c.N(1500, 60000)
 			for i := 0; i < n; i++ {
-				// every third message is rendered right after ANOTHER message whose render failed half-way
-				// (destination error inside a body): nothing of that one may show up in this one
-				if i%3 == 1 {
-					failedRenderOfADecoy(c.Rng)
-					c.rep.Branches["after-a-failed-render-of-another-message"]++
-				}
 				spc := genSpec(c.Rng, genOpts{maxParts: 3, maxFiles: 3, noFails: true})
 				if outs, ok := renderCase(c, spc, 1, ""); ok {
 					oracleMessage(c, spc, outs[0], true, false)
@@ -100,7 +104,8 @@ func init() {
 func failedRenderOfADecoy(r *Rng) {
 	dr := &Rng{s: r.s ^ 0x9e3779b97f4a7c15}
 	decoy := genSpec(dr, genOpts{maxParts: 2, maxFiles: 2, noFails: true})
-	decoy.Parts = append(decoy.Parts, PartSpec{CType: "text/plain", Content: []byte(strings.Repeat("DECOY-CONTENT-THAT-MUST-NOT-LEAK ", 40))})
+	enc := []string{"quoted-printable", "base64", "8bit"}[dr.Intn(3)]
+	decoy.Parts = append(decoy.Parts, PartSpec{CType: "text/plain", Enc: &enc, Content: []byte(strings.Repeat("DECOY-CONTENT-THAT-MUST-NOT-LEAK ", 40))})
 	m, _, err := decoy.Build()
 	if err != nil {
 		return
